@@ -368,7 +368,7 @@ def gate_sides(P, R, rule):
                     f'`{norm(t)}` compares `{sides[0][1][:60]}` ({sides[0][0]}) with `{sides[1][1][:60]}` ({sides[1][0]}): a directory listing and the expected list do not share an order '
                     '(part10 sorts before part2), so the check fails for ever for more than ten input partitions and the call ends with temp directories left behind',
                     construct=f'{g.name}: gate sides normalised')
-    R.floor(rule, 'listing == expected gates', n, 1)
+    R.count('listing_gates', n)      # the gate is optional since the sub-parts are read by name (D27): when present, its sides must be comparable
 
 
 def _stmt(node):
